@@ -122,14 +122,16 @@ theorem serTx_ok {t : Tx} (wf : WFTx t) : serTx t = .ok (txBytes t) := by
   by_cases hw : t.hasWitness = true
   · have hlen := wit_length_of_hasWitness
       ⟨hv1, hv2, ‹_›, hin, hout, hvin, hvout, ‹_›, hwit, hlock⟩ hw
-    have hn : witIsNull t.wit = false := by simpa [Tx.hasWitness] using hw
+    have hn : witIsNull t.wit = false := by
+      rw [Tx.hasWitness_eq_not_witIsNull] at hw; simpa using hw
     have hgt : ¬ t.wit.length > t.vin.length := by omega
     simp only [hw, hn, if_true, Bool.true_and, Bool.not_false, hgt, if_false]
     rw [e1]
     simp only [ok_bind, e2, e3, e4, e5, txExtended]
     simp [pure, Except.pure, List.append_assoc, ok_bind]
   · have hw' : t.hasWitness = false := by simpa using hw
-    have hn : witIsNull t.wit = true := by simpa [Tx.hasWitness] using hw'
+    have hn : witIsNull t.wit = true := by
+      rw [Tx.hasWitness_eq_not_witIsNull] at hw'; simpa using hw'
     simp only [hw', hn, Bool.true_and, Bool.not_true, if_false, Bool.false_eq_true]
     rw [e1]
     simp only [ok_bind, e2, e3, e5, txLegacy]
@@ -389,7 +391,7 @@ theorem normTx_of_not_hasWitness {t : Tx} (h : t.hasWitness = false) : normTx t 
   simp [normTx, h]
 
 theorem hasWitness_strip (t : Tx) : ({ t with wit := [] } : Tx).hasWitness = false := by
-  simp [Tx.hasWitness, witIsNull]
+  simp [Tx.hasWitness]
 
 theorem wf_strip {t : Tx} (wf : WFTx t) : WFTx { t with wit := [] } := by
   obtain ⟨hv1, hv2, h1, hin, hout, hvin, hvout, _, _, hlock⟩ := wf
@@ -428,5 +430,160 @@ theorem wf_normBlock {b : Block} (wf : WFBlock b) : WFBlock (normBlock b) := by
 
 theorem block_normBlock (b : Block) : block (normBlock b) = block b := by
   simp [block, normBlock, vec, List.map_map, Function.comp_def, txBytes_normTx]
+
+/-! ### totality on arbitrary input: only `ok`, truncation or the size guard (no stray Python exception) -/
+
+/-- the only errors a result may carry are the two library outcomes of deserialisation -/
+def LibErr {α : Type} (r : Res α) : Prop := ∀ e, r = .error e → e = .trunc ∨ e = .sererr
+
+/-- a parser that, on every byte string, succeeds or reports truncation / MAX_SIZE exceeded -/
+def Clean {α : Type} (p : Parser α) : Prop := ∀ s, LibErr (p s)
+
+theorem LibErr.ok {α : Type} (a : α) : LibErr (Except.ok a : Res α) := by
+  intro e h; cases h
+
+theorem LibErr.pure {α : Type} (a : α) : LibErr (Pure.pure a : Res α) := LibErr.ok a
+
+theorem LibErr.bind {α β : Type} {x : Res α} {f : α → Res β} (hx : LibErr x) (hf : ∀ a, LibErr (f a)) :
+    LibErr (x >>= f) := by
+  cases x with
+  | error e =>
+    intro e' h
+    have : e' = e := by
+      have h' : (Except.error e : Res β) = .error e' := h
+      injection h' with h'; exact h'.symm
+    rw [this]; exact hx e rfl
+  | ok a => exact hf a
+
+theorem LibErr.cases {α : Type} {r : Res α} (h : LibErr r) :
+    (∃ a, r = .ok a) ∨ r = .error .trunc ∨ r = .error .sererr := by
+  cases r with
+  | ok a => exact Or.inl ⟨a, rfl⟩
+  | error e =>
+    rcases h e rfl with rfl | rfl
+    · exact Or.inr (Or.inl rfl)
+    · exact Or.inr (Or.inr rfl)
+
+/-- one step of a `do` block: the bound parser is clean, continue with the continuation -/
+macro "clean_step " h:term : tactic =>
+  `(tactic| (refine LibErr.bind $h ?_; rintro ⟨_, _⟩; try dsimp only))
+
+theorem clean_serRead (n : Nat) : Clean (serRead n) := by
+  intro s e h
+  unfold serRead at h
+  split at h
+  · injection h with h; exact Or.inr h.symm
+  · split at h
+    · injection h with h; exact Or.inl h.symm
+    · cases h
+
+theorem clean_readU (w : Nat) : Clean (readU w) := by
+  intro s; unfold readU
+  clean_step (clean_serRead w s)
+  exact LibErr.pure _
+
+theorem clean_readI (w : Nat) : Clean (readI w) := by
+  intro s; unfold readI
+  clean_step (clean_serRead w s)
+  exact LibErr.pure _
+
+theorem clean_deVarInt : Clean deVarInt := by
+  intro s; unfold deVarInt
+  clean_step (clean_serRead 1 s)
+  split
+  · exact LibErr.pure _
+  · split
+    · exact clean_readU 2 _
+    · split
+      · exact clean_readU 4 _
+      · exact clean_readU 8 _
+
+theorem clean_deBytes : Clean deBytes := by
+  intro s; unfold deBytes
+  clean_step (clean_deVarInt s)
+  exact clean_serRead _ _
+
+theorem clean_deRepeat {α : Type} {p : Parser α} (hp : Clean p) : ∀ n, Clean (deRepeat p n)
+  | 0 => fun s => LibErr.ok _
+  | n + 1 => by
+      intro s
+      rw [deRepeat_succ]
+      clean_step (hp s)
+      clean_step (clean_deRepeat hp n _)
+      exact LibErr.ok _
+
+theorem clean_deVector {α : Type} {p : Parser α} (hp : Clean p) : Clean (deVector p) := by
+  intro s; unfold deVector
+  clean_step (clean_deVarInt s)
+  exact clean_deRepeat hp _ _
+
+theorem clean_deOutPoint : Clean deOutPoint := by
+  intro s; unfold deOutPoint
+  clean_step (clean_serRead 32 s)
+  clean_step (clean_readU 4 _)
+  exact LibErr.pure _
+
+theorem clean_deTxIn : Clean deTxIn := by
+  intro s; unfold deTxIn
+  clean_step (clean_deOutPoint s)
+  clean_step (clean_deBytes _)
+  clean_step (clean_readU 4 _)
+  exact LibErr.pure _
+
+theorem clean_deTxOut : Clean deTxOut := by
+  intro s; unfold deTxOut
+  clean_step (clean_readI 8 s)
+  clean_step (clean_deBytes _)
+  exact LibErr.pure _
+
+theorem clean_deWitStack : Clean deWitStack := clean_deVector clean_deBytes
+
+theorem clean_deTx : Clean deTx := by
+  intro s; unfold deTx
+  clean_step (clean_readI 4 s)
+  clean_step (clean_readU 1 _)
+  clean_step (clean_readU 1 _)
+  split
+  · clean_step (clean_deVector clean_deTxIn _)
+    clean_step (clean_deVector clean_deTxOut _)
+    clean_step (clean_deRepeat clean_deWitStack _ _)
+    clean_step (clean_readU 4 _)
+    exact LibErr.pure _
+  · clean_step (clean_deVector clean_deTxIn _)
+    clean_step (clean_deVector clean_deTxOut _)
+    clean_step (clean_readU 4 _)
+    exact LibErr.pure _
+
+theorem clean_deHeader : Clean deHeader := by
+  intro s; unfold deHeader
+  clean_step (clean_readI 4 s)
+  clean_step (clean_serRead 32 _)
+  clean_step (clean_serRead 32 _)
+  clean_step (clean_readU 4 _)
+  clean_step (clean_readU 4 _)
+  clean_step (clean_readU 4 _)
+  exact LibErr.pure _
+
+theorem clean_deBlock : Clean deBlock := by
+  intro s; unfold deBlock
+  clean_step (clean_deHeader s)
+  clean_step (clean_deVector clean_deTx _)
+  exact LibErr.pure _
+
+/-- `Serializable.deserialize` of a clean parser: object, extra-data error, truncation or size guard -/
+theorem Clean.deserialize {α : Type} {p : Parser α} (hp : Clean p) (buf : Bytes) (pad : Bool) :
+    (∃ a, deserialize p buf pad = .ok a) ∨ (∃ a x, x ≠ [] ∧ deserialize p buf pad = .extra a x) ∨
+    deserialize p buf pad = .err .trunc ∨ deserialize p buf pad = .err .sererr := by
+  unfold Model.Wire.deserialize
+  rcases (hp buf).cases with ⟨⟨a, r⟩, h⟩ | h | h
+  · rw [h]
+    by_cases hc : (!pad && decide (r.length ≠ 0)) = true
+    · right; left
+      refine ⟨a, r, ?_, by simp only [hc, if_true]⟩
+      intro h0; simp [h0] at hc
+    · left
+      exact ⟨a, by simp only [hc]; rfl⟩
+  · right; right; left; rw [h]
+  · right; right; right; rw [h]
 
 end BtcVerif.Codec
